@@ -114,11 +114,15 @@ example :
 
 /-! ## 2. Termination: measures for the loops of the models -/
 
-/-- **propagation_terminates.**  `Propagation.fit` (model `SkNet.Vote.fit` of the repaired code: the loop stops
-    as soon as a configuration of labels comes back) terminates on **every** graph with non-negative weights —
-    directed or not —, for every seed vector, every node order and every `n_iter`, the default (unbounded)
-    included: `fitBound` = (number of nodes)^(number of updated nodes) + 1 evaluations of the loop test suffice,
-    because a sweep never invents a label and a configuration is never met twice before the loop stops. -/
+/-- **propagation_terminates.**  `Propagation.fit` with the stop rule "a configuration of labels comes back" alone
+    (model `SkNet.Vote.fit` with `nIter = none`: the code between /repo c67df33b and be74e3a8) terminates on **every** graph
+    with non-negative weights — directed or not —, for every seed vector, every node order and every `n_iter`:
+    `fitBound` = (number of nodes)^(number of updated nodes) + 1 evaluations of the loop test suffice,
+    because a sweep never invents a label and a configuration is never met twice before the loop stops.
+    This is termination, **not** a time bound: the bound is exponential and the family of disjoint directed cycles
+    attains an exponential number of sweeps (period `lcm (cᵢ - 1)`, Landau's function; `propagation_seen_rule_not_proportionate`
+    below; 65 nodes needed 510 510 sweeps, defect F26).  The code that exists bounds the default number of sweeps by
+    `n + 1`: `propagation_sweeps_bounded`. -/
 -- (`hw` is inherited from C13's lemma `voteUpdate_subset`; the pigeonhole argument itself only needs that a sweep is a
 -- function that never invents a label, so the restriction to non-negative weights is an artefact of the proof)
 theorem propagation_terminates (c : Csr Rat) (hw : ∀ p, 0 ≤ c.data.getD p 0) (values : List Int)
@@ -143,6 +147,29 @@ example : (∀ p, 0 ≤ dicycle3.data.getD p 0) ∧ Terminate.fitBound [0, 0, 0]
   · have : dicycle3.data.getD p 0 = 0 := by
       simp [dicycle3, Array.getD, show ¬ p < 3 from h]
     rw [this]
+
+/-- **propagation_sweeps_bounded.**  With a bound `k` on the number of sweeps — an explicit `n_iter = k ≥ 0`, or the
+    default `n_iter = -1`, which `Propagation.fit` reads as `k = n + 1` since /repo be74e3a8 — the loop makes at most `k`
+    sweeps, on every graph, for every seed vector and node order, whatever the weights: `k + 1` evaluations of the loop
+    test suffice.  (Each sweep is one call of `vote_update`: one pass over the edges of the updated nodes.) -/
+theorem propagation_sweeps_bounded (c : Csr Rat) (values : List Int) (a : Vote.PropArgs) (k : Nat)
+    (hk : a.nIter = some k) (fuel : Nat) (hf : k + 1 ≤ fuel) :
+    ∃ r, Vote.fit c values a fuel = some r ∧ r.2 ≤ k :=
+  Terminate.fit_capped c values a k hk fuel hf
+
+/-- the disjoint directed cycles of lengths 3, 4 and 6 (13 nodes) -/
+def dicycles346 : Csr Rat :=
+  { nRow := 13, nCol := 13, indptr := #[0, 1, 2, 3, 4, 5, 6, 7, 8, 9, 10, 11, 12, 13],
+    indices := #[1, 2, 0, 4, 5, 6, 3, 8, 9, 10, 11, 12, 7], data := #[1, 1, 1, 1, 1, 1, 1, 1, 1, 1, 1, 1, 1] }
+
+/-- **propagation_seen_rule_not_proportionate.**  Witness that the stop rule "a configuration comes back" alone does not
+    bound the sweeps by the size of the input: on the 13 nodes of `dicycles346` (own labels, every node updated) the
+    asynchronous sweep has period lcm(2, 3, 5) = 30 and the uncapped loop makes 31 sweeps (> n + 1 = 14); with the cap of
+    the code it stops after 14. -/
+theorem propagation_seen_rule_not_proportionate :
+    (Vote.fit dicycles346 (List.replicate 13 0) {} 40).map (·.2) = some 31 ∧
+    (Vote.fit dicycles346 (List.replicate 13 0) { nIter := some 14 } 15).map (·.2) = some 14 := by
+  refine ⟨by decide +kernel, by decide +kernel⟩
 
 /-- The loop of the pinned code stopped only when a sweep changed nothing.  A loop of that shape does not
     terminate on an orbit of period 2 (this is the mechanism of F18, kept as the witness of the repair). -/
@@ -356,7 +383,9 @@ example : Rank.pushLoop (α := ℚ) ⟨2, fun i => if i = 0 then [(1, 1)] else i
     `SkNet.Hier.getHierarchyLoop`; the successive results of `fit_predict` are an input of the model) ends as soon
     as the number of clusters stops changing, and it can only strictly decrease: if every result has one label per
     cluster of the previous one (`Chained`: what `fit_predict` on the aggregate returns), the loop needs at most as
-    many further rounds as there are clusters in the first result. -/
+    many further rounds as there are clusters in the first result.  The statement is conditional on `Chained` and on a
+    recorded sequence longer than the number of clusters (`hlen`); it bounds the number of *rounds* — each round is a whole
+    `Louvain.fit`, whose own termination is `louvain_fit_terminates`. -/
 theorem louvain_hierarchy_terminates (more : List (List Nat)) (items : List Hier.Tree) (labels labelsUnique : List Nat)
     (hch : Terminate.Chained labelsUnique.length more) (hlen : labelsUnique.length < more.length) :
     Hier.getHierarchyLoop more items labels labelsUnique ≠ none :=
@@ -404,8 +433,9 @@ example :
 /-! ## 7. the refinement of Leiden -/
 
 /-- **refine_core_terminates** (over ℚ, the loop *without* its pass cap).  The compiled `optimize_refine_core`
-    always returns because of its cap (`while increase and n_pass <= n`, /repo 68bb875c — the float32 kernel cycled
-    without it, defect F21); the model of the code, `SkNet.Modularity.refineCore` / `refineCapped`, is a total function
+    always returns because of its bound on the number of passes (`while increase and n_pass < 100`, /repo 68bb875c then
+    695ec4cc — the float32 kernel cycled without it, defect F21, and a bound of `n + 1` passes made such runs quadratic,
+    defect F29); the model of the code, `SkNet.Modularity.refineCore` / `refineCapped`, is a total function
     for that reason and needs no theorem.  What is proved here is that in exact arithmetic the cap is not what ends the
     loop within `K^n + 1` passes: the `while increase` loop without the cap (`SkNet.Modularity.refineLoop`) terminates
     for **every** sequence of values of `rand()`:
